@@ -375,7 +375,7 @@ theorem astep_inv (s : Sys) (tid : Nat) (h : AInv s) : AInv (step s tid) := by
       · simp only [ht, if_true]
         exact rd { t with pc := .cQuiesced old } none (Or.inr rfl) (by simp [isPusherPC]) (by simp) (by simp) (by simp [hp])
       · simp only [ht, if_false]
-        exact adv (.cleared []) s.tail (Or.inl rfl) (by simp [hp])
+        exact rd { t with pc := .cLoadTail } s.tail (Or.inl rfl) (by simp [isPusherPC]) (by simp) (by simp) (by simp [hp])
     | cQuiesced blk =>
       simp only
       exact rd _ s.tail (Or.inl rfl) (by split <;> simp [isPusherPC]) (by split <;> simp) (by split <;> simp) (by simp [hp])
@@ -482,7 +482,7 @@ theorem rh_step (s : Sys) (t : Thread) (h : RH t) : RH (stepThread s t).2 := by
     simp only; have hh := h (by simp [hp, isPusherPC]) (by simp [hp])
     split
     · exact RH_of_head _ hh
-    · exact RH_of_startPC _ rfl
+    · exact RH_of_head _ hh
   | cQuiesced blk => exact RH_of_head _ (h (by simp [hp, isPusherPC]) (by simp [hp]))
   | cWait blk => exact RH_of_head _ (h (by simp [hp, isPusherPC]) (by simp [hp]))
   | cRead blk => exact RH_of_head _ (h (by simp [hp, isPusherPC]) (by simp [hp]))
@@ -675,7 +675,7 @@ theorem astep_vals (v : Nat) (s : Sys) (tid : Nat) (h : AInv s) (hr : ∀ (i : N
       · simp only [ht, if_true]
         exact same _ _ (todo_eq v t _ rfl (by simp [hp]) (by simp))
       · simp only [ht, if_false]
-        exact same _ _ (todo_advance_reader v t _ hR (by simp [hp, isPusherPC]) (by simp [hp]))
+        exact same _ _ (todo_eq v t _ rfl (by simp [hp]) (by simp))
     | cQuiesced blk => simp only; exact same _ _ (todo_eq v t _ rfl (by simp [hp]) (by intro b i; split <;> simp))
     | cWait blk => simp only; exact same _ _ (todo_eq v t _ rfl (by simp [hp]) (by intro b i; split <;> simp))
     | cRead blk => simp only; exact same _ _ (todo_eq v t _ rfl (by simp [hp]) (by simp))
@@ -814,7 +814,7 @@ theorem seen_step (s : Sys) (t : Thread) (v : Nat) (h : v ∈ seenVals (stepThre
     rw [hp] at h; simp only at h
     split at h
     · exact Or.inl h
-    · exact Or.inl (keep _ (Or.inl rfl) h)
+    · exact Or.inl h
   | cQuiesced blk => rw [hp] at h; exact Or.inl h
   | cWait blk => rw [hp] at h; exact Or.inl h
   | cRead blk => rw [hp] at h; exact rd blk _ h
